@@ -69,8 +69,10 @@ def uses_free(ctx, entry_q: str) -> bool:
             if isinstance(n, ast.Attribute):
                 if n.attr == "propagate_free":
                     return True
-                if isinstance(n.value, ast.Name) and n.value.id == "self" and n.attr in ci.methods:
-                    work.append(ci.methods[n.attr])
+                if isinstance(n.value, ast.Name) and n.value.id == "self":
+                    m_ = ctx.p.lookup_method("sampling.sampler", n.attr)      # own or inherited (mixin / base class)
+                    if m_ is not None:
+                        work.append(m_)
     return False
 
 
@@ -153,7 +155,7 @@ def ts0(ctx, entries: List[str]):
     # the typestate runs (TS-3) start at every sampler entry point and follow whatever it calls, closures included: a
     # step function entered anywhere inside the sampler class is on an analysed path.  Elsewhere (driver, user-facing
     # helpers) nothing establishes the cache invariant the step relies on.
-    allowed_prefix = ("sampling.sampler.", "propagation.")
+    allowed_prefix = tuple(q_ + "." for q_ in p.classes["sampling.sampler"].mro if q_ in p.classes) + ("propagation.",)
     for e, fi in w.sites:
         f = e.data.args[0]
         if f.op == "attr" and f.args[1] in step_names:
